@@ -2,9 +2,9 @@
    accepts; (2) a failing handler delivers a prefix, which the monitor accepts as well; (3) the model's run
    has the shape (Proofs/Fk/MovingLibEvents.v) under the boolean scope of the statement. *)
 From BV Require Import Base.Prelude Model.Block Model.ForkDB Model.Forkable Spec.Consumer Spec.Universe
-  Spec.C01_Spec Spec.C01_Moving_Spec Spec.C04_Spec Spec.C04_Moving_Spec
+  Spec.C01_Spec Spec.C01_Moving_Spec Spec.C01_Roots_Spec Spec.C04_Spec Spec.C04_Moving_Spec
   Proofs.Fk.LoopFacts Proofs.Fk.MovingLibLoops Proofs.Fk.MovingLibInv Proofs.Fk.FixedLibEvents Proofs.Fk.MovingLibEvents
-  Proofs.Fk.MovingLibFin Proofs.Fk.FailPrefix Proofs.Fk.FailRun Proofs.C04_Proofs Proofs.C02_Proofs.
+  Proofs.Fk.MovingLibFin Proofs.Fk.FailPrefix Proofs.Fk.FailRun Proofs.C04_Proofs Proofs.C02_Proofs Proofs.C01_Roots_Proofs.
 Local Open Scope N_scope.
 
 (* ---------------------------------------------------------------- the batches of a step under the monitor *)
@@ -200,29 +200,30 @@ End FailC04.
 
 (* ---------------------------------------------------------------- the model *)
 
-Lemma c04_moving_nofail cfg r0 m h :
+(* the class moving_scope2_b of Spec/C01_Roots_Spec.v: roots (empty parent ids) allowed *)
+Lemma c04_moving2_nofail cfg r0 m h :
   c_fail_at cfg = None -> rooted_mode r0 m -> f_new (c_filter cfg) = true -> f_undo (c_filter cfg) = true ->
-  moving_scope_b r0 h = true ->
+  moving_scope2_b r0 h = true ->
   c04m_run r0 (f_irr (c_filter cfg)) [] r0 [] h (fk_run cfg (fs_init m) h).
 Proof.
   intros Hnofail Hm Hnew Hundo Hscope.
-  destruct (scope_parts r0 h Hscope) as (_ & _ & Hr0 & _).
+  destruct (scope2_parts r0 h Hscope) as (_ & _ & Hr0 & _).
   exact (moving_lib_events h r0 cfg Hnofail Hnew Hundo
-           (bridge_id h (m_wf r0 h Hscope) (m_par r0 h Hscope)) (bridge_uniq h (m_wf r0 h Hscope)) (bridge_up h (m_wf r0 h Hscope)) Hr0
-           (fun y Hy => proj2 (proj2 (mb_parts r0 h Hscope y Hy)))
-           (fun x Hx => proj1 (proj2 (mb_parts r0 h Hscope x Hx)))
-           (bridge_decl r0 h Hscope)
+           (bridge_id h (m2_wf r0 h Hscope)) (bridge_uniq h (m2_wf r0 h Hscope)) (bridge_up h (m2_wf r0 h Hscope)) Hr0
+           (fun y Hy => proj2 (mb2_parts r0 h Hscope y Hy))
+           (fun x Hx => proj1 (mb2_parts r0 h Hscope x Hx))
+           (bridge2_decl r0 h Hscope)
            m h (rooted_of r0 m Hm) (fun b Hb => Hb)).
 Qed.
 
-Lemma c04_moving_lib_proved : c04_moving_lib_statement.
+Lemma c04_moving_lib_roots_proved : c04_moving_lib_roots_statement.
 Proof.
   intros cfg r0 m h Hm Hnew Hundo Hscope. unfold c04_statement.
   destruct (c_fail_at cfg) as [k|] eqn:Hf.
   - split; [|intros H; discriminate].
-    pose proof (c04_moving_nofail (nofail cfg) r0 m h eq_refl Hm Hnew Hundo Hscope) as HN.
+    pose proof (c04_moving2_nofail (nofail cfg) r0 m h eq_refl Hm Hnew Hundo Hscope) as HN.
     change (c_filter (nofail cfg)) with (c_filter cfg) in HN.
-    destruct (c01_moving_nofail (nofail cfg) r0 m h eq_refl Hm Hnew Hundo Hscope) as (_ & Hok & _).
+    destruct (c01_roots_nofail (nofail cfg) r0 m h eq_refl Hm Hnew Hundo Hscope) as (_ & Hok & _).
     pose proof (c04m_run_accept r0 _ m h _ Hm HN) as HA.
     unfold c04_b in *. rewrite (proj2 (rooted_root_lib r0 m (fk_run (nofail cfg) (fs_init m) h) Hm)) in HA.
     rewrite (proj2 (rooted_root_lib r0 m (fk_run cfg (fs_init m) h) Hm)).
@@ -232,6 +233,13 @@ Proof.
     + exact Hok.
     + exists mN. exact EN.
     + rewrite Hm'. reflexivity.
-  - pose proof (c04_moving_nofail cfg r0 m h Hf Hm Hnew Hundo Hscope) as HN.
+  - pose proof (c04_moving2_nofail cfg r0 m h Hf Hm Hnew Hundo Hscope) as HN.
     split; [exact (c04m_run_accept r0 _ m h _ Hm HN) | intros _; exact HN].
+Qed.
+
+(* the class without roots is a sub-class *)
+Lemma c04_moving_lib_proved : c04_moving_lib_statement.
+Proof.
+  intros cfg r0 m h Hm Hnew Hundo Hscope.
+  exact (c04_moving_lib_roots_proved cfg r0 m h Hm Hnew Hundo (moving_scope_sub r0 h Hscope)).
 Qed.
